@@ -210,6 +210,9 @@ func (r *Runner) replayLine(l *Line) lineResult {
 	if r.cfg.Fam == "sched" && l.Fam == "core" {
 		return r.replaySched(l)
 	}
+	if r.cfg.Fam == "lockrun" && l.Fam == "partial" {
+		return r.replayLockCase(l)
+	}
 	switch l.Fam {
 	case "core":
 		return r.replayCore(l)
@@ -324,8 +327,8 @@ func (r *Runner) writeReplay(prop string, f *Fail, l *Line) string {
 	h.Write([]byte(l.raw))
 	h.Write([]byte(f.Inst + f.Cat))
 	fam := l.Fam
-	if r.cfg.Fam == "sched" {
-		fam = "sched"
+	if r.cfg.Fam == "sched" || r.cfg.Fam == "lockrun" {
+		fam = r.cfg.Fam
 	}
 	path := filepath.Join(r.cfg.OutDir, fmt.Sprintf("%s-%s-%016x.json", prop, fam, h.Sum64()))
 	v := Violation{Property: prop, Family: fam, Fail: *f, Line: json.RawMessage(l.raw), Seed: r.cfg.Seed, Tier: r.cfg.Tier, X: stripTrace(r.extra)}
